@@ -177,9 +177,21 @@ func vh_C13_chunks() {
 	vFormatOpaque(true)
 	es := vEnvs(2)
 	whole, pieces := es[0], es[1]
-	n := 2 + vChoice("len", vC13Len())
-	txt := vString("t", n)
+	// the text: every short byte string, or one of the feature texts
+	// (strings with escapes, signed numbers, dotted pairs, infix blocks,
+	// comments, ...); every cut position
+	var txt string
+	if k := vChoice("text", 1+len(vC13ChunkTexts)); k == 0 {
+		n := 2 + vChoice("len", vC13Len())
+		txt = vString("t", n)
+	} else {
+		txt = vC13ChunkTexts[k-1]
+	}
+	n := len(txt)
 	cut := 1 + vChoice("cut", n-1)
+	// pieces of *text*: a cut inside the UTF-8 encoding of one character is
+	// outside the claim
+	vAssume(txt[cut]&0xC0 != 0x80)
 	a, errA, pA := vParse(whole, txt)
 	if pA {
 		vDone()
@@ -246,6 +258,13 @@ func vh_C13_lasttoken() {
 	vAssert(errB == nil, "bare-no-error")
 	vAssert(vSexpListEq(a, b), "last-token-not-lost")
 	vReach("lasttoken")
+}
+
+// texts cut at every position by vh_C13_chunks
+var vC13ChunkTexts = []string{
+	"(a \\ b)", "(a \\ (b c))", "[1, 2 ,3]", "[\"a\", \"b\"]", "{a: 1 b: 2}", "{\"k\": [1 2]}", "{a + b * c}", "(def s \"x y\\\"z\")",
+	"(f `raw ) text` 2)", "(a /* c ( */ b)", "(a // c (\n b)", "-1.5e-3 ", "(- 1 -2)", "'a' 'b'", "a:=1 ", "(quote ~@x)", "^(a ~b ~@c)", "x.y.z ",
+	"(a ; b\n c)", "{a = 1; b = 2}", "(fn [a b] (+ a b))", "\"é\" 'é'",
 }
 
 // longer concrete texts covering the lexer's features, read by the havocked
